@@ -30,6 +30,17 @@ type Case struct {
 	DFS     int        `json:"dfs"`
 }
 
+// Block: a run of consecutive edge masks of one exhaustive stream, one verdict character per graph.
+type Block struct {
+	Stream   string `json:"stream"`
+	Compact  bool   `json:"compact"`
+	N        int    `json:"n"`
+	Loops    bool   `json:"loops"`
+	Start    uint64 `json:"start"`
+	Verdicts string `json:"verdicts"`
+	DFS      string `json:"dfs"`
+}
+
 func verdict(names []string, deps [][]string) (int, string) {
 	steps := make([]dag.Step, len(names))
 	for i := range names {
@@ -149,14 +160,23 @@ func main() {
 	}
 	// n = 4 with self-loops: 2^16
 	if tier == "thorough" {
-		for m := uint64(0); m < 1<<16; m++ {
-			a, b := fromMask(4, m, true)
-			emit("all4", a, b)
+		// exhaustive blocks in compact form: the model rebuilds graph #mask itself (AcceptCheck.mask_graph)
+		block := func(stream string, n int, loops bool, total uint64) {
+			const B = 1 << 15
+			for start := uint64(0); start < total; start += B {
+				vs := make([]byte, 0, B)
+				ds := make([]byte, 0, B)
+				for m := start; m < start+B && m < total; m++ {
+					a, b := fromMask(n, m, loops)
+					v, _ := verdict(a, b)
+					vs = append(vs, byte('0'+v))
+					ds = append(ds, byte('0'+dfsVerdict(a, b)))
+				}
+				out.Put(Block{Stream: stream, Compact: true, N: n, Loops: loops, Start: start, Verdicts: string(vs), DFS: string(ds)})
+			}
 		}
-		for m := uint64(0); m < 1<<20; m++ {
-			a, b := fromMask(5, m, false)
-			emit("loopfree5", a, b)
-		}
+		block("all4", 4, true, 1<<16)
+		block("loopfree5", 5, false, 1<<20)
 	} else {
 		for c := 0; c < 600; c++ {
 			a, b := fromMask(4, rng.Next()&0xFFFF, true)
